@@ -45,6 +45,7 @@ fn frame(v: &V, addr: u32) -> Frame {
     let b6 = match v.base {
         0 => frames::surv_bits(0, 0, 0, v.id13),
         1 | 2 => frames::surv_bits(7, 31, 63, v.id13),
+        50 => frames::surv_bits(0, 0, 0, v.id13),
         // 3..=16: exactly one of the 14 FS/DR/UM bits set
         k => (1u32 << (13 + (k - 3))) | v.id13,
     };
@@ -55,6 +56,8 @@ fn frame(v: &V, addr: u32) -> Frame {
             0 => 0,
             1 => 0x00FF_FFFF_FFFF_FFFF,
             2 => frames::mb_bds20(frames::callsign_codes("VERIF17")),
+            // an MB field shaped like an emergency / priority status report carrying a Mode A code (7700)
+            50 => frames::me_tc28(),
             // one MB bit set per base (walks over the first 14 and every 4th later bit)
             k => 1u64 << (55 - ((k as u64 - 3) * 4)),
         };
@@ -70,6 +73,11 @@ fn lines(v: &V, addr: u32) -> Vec<Vec<u8>> {
             1 => l.push(hexline(&frames::df11(0, addr, 0))),
             3 => l.push(hexline(&frames::df20(addr, frames::ac13_for_alt(7000), 0))),
             _ => {}
+        }
+        if v.pre == 5 {
+            // the row shows an altitude whose 13-bit code is the very bit pattern of the identity field under test
+            l.push(hexline(&frames::df11(5, addr, 0)));
+            l.push(hexline(&frames::df4(addr, v.id13)));
         }
         l.push(hexline(&frames::df5(addr, frames::id13_for_squawk(SENTINEL_SQ))));
     }
@@ -147,6 +155,17 @@ fn run(ctx: &mut Ctx) {
             }
         }
     }
+    // diagonal: identity field == altitude code of the row; and an MB field shaped like a TC28 status report
+    for df in [5u32, 21] {
+        for id13 in 0..8192u32 {
+            items.push(V { df, id13, base: 0, update: true, pre: 5 });
+        }
+    }
+    for update in [false, true] {
+        for id13 in (0..8192u32).step_by(if ctx.tier.thorough() { 1 } else { 3 }) {
+            items.push(V { df: 21, id13, base: 50, update, pre: 0 });
+        }
+    }
     let mut idx = 0u64;
     for opts in CFG4 {
         let cfg = Cfg::new(opts);
@@ -167,7 +186,8 @@ fn run(ctx: &mut Ctx) {
         if ctx.mine(idx) {
             let addr = 0x3C4DD2;
             for (name, f) in other_formats(addr) {
-                let l = vec![hexline(&frames::df11(5, addr, 0)), hexline(&frames::df5(addr, frames::id13_for_squawk(SENTINEL_SQ))), hexline(&f)];
+                // (the row also knows the aircraft's ADS-B version: an operational-status message came first)
+                let l = vec![hexline(&frames::df11(5, addr, 0)), hexline(&frames::df17(5, addr, frames::me_tc31(2))), hexline(&frames::df5(addr, frames::id13_for_squawk(SENTINEL_SQ))), hexline(&f)];
                 let o = single(&cfg, addr, l);
                 ctx.eval();
                 ctx.count("other-format-leaves-squawk");
